@@ -298,6 +298,8 @@ inductive Op
   | rmStatic (mac : Bytes) (ip : Nat) (host : Bytes)
   | sleep (d : Nat)
   | restart
+  /-- `POST /control/dhcp/reset_leases`: `server.resetLeases` on the RUNNING server. -/
+  | resetLeases
   /-- Not an operation of the server: `writeDB` sorts the records by hostname with
   `slices.SortFunc`, which is not stable (beyond 12 records): the file may hold ANY
   permutation of the table that is sorted by hostname.  `reorder d` replaces the
@@ -552,6 +554,11 @@ def reorderDisk (d : List DLease) (s : State) : State :=
   | some d0 => if d.isPerm d0 && sortedByHost d then { s with disk := some d } else s
   | none => s
 
+/-- `server.resetLeases`: `ResetLeases(nil)` on the live server — empty table,
+fresh indexes, fresh bitset — then `dbStore`. -/
+def resetAll (s : State) : State :=
+  ({ State.init with nextId := s.nextId, now := s.now, disk := s.disk }).store
+
 def step (O : Oracle) (c : Conf) (s : State) (op : Op) : State × Reply :=
   let s := { s with stale := [] }
   match op with
@@ -564,6 +571,7 @@ def step (O : Oracle) (c : Conf) (s : State) (op : Op) : State × Reply :=
   | .rmStatic mac ip h => rmStatic c mac ip h s
   | .sleep d => ({ s with now := s.now + d }, Reply.api "ok")
   | .restart => (restart O c s, Reply.api "ok")
+  | .resetLeases => (resetAll s, Reply.api "ok")
   | .reorder d => (reorderDisk d s, Reply.api "ok")
 
 def run (O : Oracle) (c : Conf) : State → List Op → State
